@@ -75,6 +75,7 @@ class Run:
         self.place = [dict() for _ in pools]
         self.queue = [[] for _ in pools]             # the pool's undelivered events, oldest first, as the statement orders them
         self.pid = 100
+        self.aborted = False      # a remove / add call let an exception escape: the history ends there
         for op in script:
             self.do(op)
 
@@ -88,6 +89,8 @@ class Run:
     # -- one operation ----------------------------------------------------------------------
     def do(self, op):
         w = self.w
+        if self.aborted:
+            return
         t = op.split()
         before = [[w.lstate(pi, li) for li in range(len(ls))] for pi, ls in enumerate(w.listeners)]
         ev0 = w.next_ev
@@ -101,6 +104,10 @@ class Run:
         # is offered its own PROCESS_GROUP_ADDED, a pool that was just removed is not offered its PROCESS_GROUP_REMOVED
         if t[0] in ('remove', 'add'):
             self.group_call(op, t, outs, ev0)
+            if err != '-':
+                # remove_process_group / add_process_group of a pool raised: whether the pool is in the daemon and
+                # subscribed is anybody's guess from here on (reported below as exception-escaped)
+                self.aborted = True
         # every event emitted during this operation: which pools must be offered it (by its class alone): the pools
         # that are in the daemon and subscribed to its type or one of its documented supertypes
         for evid in range(ev0, w.next_ev):
@@ -773,9 +780,9 @@ def run_case(ctx, handler, pools, script, cases, impls, drain=True, names='uniqu
 
 
 def finish_case(ctx, r, handler, pools, names, cases, impls, drain=True):
-    if drain:
+    if drain and not r.aborted:
         r.drain()
-    viol = r.monitors() if drain else r.viol
+    viol = r.monitors() if drain and not r.aborted else r.viol
     r.fifo_monitor()
     cases.append(('case pool handler=%s names=%s pools=%s' % (handler, names, pools_spec(pools)), r.ops))
     ctx.count('names:' + names)
